@@ -39,6 +39,9 @@ import (
 type plClient struct {
 	Name      string
 	IPs       []string
+	// Subnets identify the client by CIDR; an address belongs to the client
+	// with the most specific subnet containing it (exact addresses first).
+	Subnets   []string
 	UseOwn    bool
 	Filtering bool
 	SB, Par   bool
@@ -286,6 +289,9 @@ func (c *plCfg) CoqShared(defs *[]vfDef) string {
 
 func (c *plCfg) BlockRules() []*vfRule { return append(append([]*vfRule{}, c.Custom...), c.Block...) }
 
+// clientFor: the persistent client an address belongs to, stated directly:
+// the client listing the address itself, else the client with the most
+// specific subnet containing it (the generator draws no two equal subnets).
 func (c *plCfg) clientFor(addr netip.Addr) *plClient {
 	for i := range c.Clients {
 		for _, ip := range c.Clients[i].IPs {
@@ -294,7 +300,49 @@ func (c *plCfg) clientFor(addr netip.Addr) *plClient {
 			}
 		}
 	}
-	return nil
+	var best *plClient
+	bestBits := -1
+	for i := range c.Clients {
+		for _, sn := range c.Clients[i].Subnets {
+			p := netip.MustParsePrefix(sn)
+			if p.Contains(addr.WithZone("")) && p.Bits() > bestBits {
+				best, bestBits = &c.Clients[i], p.Bits()
+			}
+		}
+	}
+	return best
+}
+
+// plSubnetClasses: the query's address lies in nested subnets of different
+// clients (the inner one must win) / was matched by a subnet at all.
+func plSubnetClasses(c *plCfg, q *plQuery) (cl []string) {
+	for i := range c.Clients {
+		for _, ip := range c.Clients[i].IPs {
+			if netip.MustParseAddr(ip) == q.Addr {
+				return nil
+			}
+		}
+	}
+	n := 0
+	var flags []bool
+	for i := range c.Clients {
+		for _, sn := range c.Clients[i].Subnets {
+			if netip.MustParsePrefix(sn).Contains(q.Addr.WithZone("")) {
+				n++
+				flags = append(flags, c.Clients[i].UseOwn && c.Clients[i].Filtering)
+			}
+		}
+	}
+	if n >= 1 {
+		cl = append(cl, "client-by-subnet")
+	}
+	if n >= 2 {
+		cl = append(cl, "client-nested-subnets")
+		if flags[0] != flags[1] {
+			cl = append(cl, "client-nested-subnets-filtering-differs")
+		}
+	}
+	return cl
 }
 
 func (p *plClient) Coq() string {
@@ -400,6 +448,9 @@ func plNewServer(t *testing.T, c *plCfg) *plServer {
 		}
 		for _, ip := range pc.IPs {
 			p.IPs = append(p.IPs, netip.MustParseAddr(ip))
+		}
+		for _, sn := range pc.Subnets {
+			p.Subnets = append(p.Subnets, netip.MustParsePrefix(sn))
 		}
 		initial = append(initial, p)
 	}
@@ -1268,6 +1319,22 @@ func plGenCfg(r *vfRand, targets []string) *plCfg {
 				Name: "other", IPs: []string{"fd00::1", "10.0.1.7"},
 				UseOwn: true, Filtering: r.Bool(), UseOwnSvc: r.Bool(), Svcs: []string{vfPick(r, plServices).ID},
 			})
+		}
+	}
+	if r.Chance(1, 4) {
+		// two clients identified by nested subnets, own settings, filtering
+		// flags mostly different: 10.0.0.2 lies in both (the inner client's
+		// settings apply), 10.0.1.7 only in the outer one (unless listed by
+		// address above), 10.0.0.1 is usually some client's exact address
+		f := r.Bool()
+		inner := plClient{Name: "kids-net", Subnets: []string{vfPick(r, []string{"10.0.0.0/24", "10.0.0.2/31", "10.0.0.0/16"})},
+			UseOwn: true, Filtering: f, SB: r.Chance(1, 4), UseOwnSvc: r.Chance(1, 3), Svcs: []string{vfPick(r, plServices).ID}}
+		outer := plClient{Name: "whole-lan", Subnets: []string{vfPick(r, []string{"10.0.0.0/8", "10.0.0.0/12", "0.0.0.0/0"}), "fd00::/8"},
+			UseOwn: !r.Chance(1, 6), Filtering: f == r.Chance(1, 5)}
+		if r.Bool() {
+			c.Clients = append(c.Clients, inner, outer)
+		} else {
+			c.Clients = append(c.Clients, outer, inner)
 		}
 	}
 	return c
